@@ -1,6 +1,7 @@
 package main
 
 import (
+	"sort"
 	"bytes"
 	"fmt"
 	"go/ast"
@@ -79,5 +80,72 @@ func alphaVariant(p *props.Property, repo, outDir string) error {
 		}
 	}
 	fmt.Printf("alpha variant: %d files written under %s\n", n, outDir)
+	return nil
+}
+
+// noiseVariant writes a copy of the property's packages in which a statement without effect (`_ = struct{}{}`) is inserted
+// at the start of every block of every function (function bodies, if/else, for, range, switch and select clauses). The
+// variant behaves exactly like the tree; rules must not depend on a block having exactly the statements it has today.
+func noiseVariant(p *props.Property, repo, outDir string) error {
+	prog, err := core.Load(repo, nil, p.Patterns...)
+	if err != nil {
+		return err
+	}
+	n := 0
+	const noop = "\n_ = struct{}{}\n"
+	for _, pkg := range prog.ModPkgs {
+		for _, f := range pkg.Syntax {
+			fname := prog.Fset.Position(f.Pos()).Filename
+			if !strings.HasPrefix(fname, repo+"/") || strings.Contains(fname, "/go-build/") {
+				continue
+			}
+			src, err := os.ReadFile(fname)
+			if err != nil {
+				return err
+			}
+			var offs []int
+			ast.Inspect(f, func(nd ast.Node) bool {
+				switch x := nd.(type) {
+				case *ast.BlockStmt:
+					if x != nil && x.Lbrace.IsValid() && len(x.List) > 0 {
+						switch x.List[0].(type) {
+						case *ast.CaseClause, *ast.CommClause:
+							// the body of a switch/select: statements go into its clauses
+						default:
+							offs = append(offs, prog.Fset.Position(x.Lbrace).Offset+1)
+						}
+					}
+				case *ast.CaseClause:
+					if len(x.Body) > 0 {
+						offs = append(offs, prog.Fset.Position(x.Colon).Offset+1)
+					}
+				case *ast.CommClause:
+					if len(x.Body) > 0 {
+						offs = append(offs, prog.Fset.Position(x.Colon).Offset+1)
+					}
+				}
+				return true
+			})
+			if len(offs) == 0 {
+				continue
+			}
+			sort.Sort(sort.Reverse(sort.IntSlice(offs)))
+			out := append([]byte(nil), src...)
+			for _, o := range offs {
+				if o < 0 || o > len(out) {
+					continue
+				}
+				out = append(out[:o], append([]byte(noop), out[o:]...)...)
+			}
+			rel, _ := filepath.Rel(repo, fname)
+			dst := filepath.Join(outDir, rel)
+			os.MkdirAll(filepath.Dir(dst), 0o755)
+			if err := os.WriteFile(dst, out, 0o644); err != nil {
+				return err
+			}
+			n++
+		}
+	}
+	fmt.Printf("noise variant: %d files written under %s\n", n, outDir)
 	return nil
 }
